@@ -1,7 +1,8 @@
 """C08 — the query cache only replays fresh, matching, successful answers."""
 from lib import *  # noqa
 
-TECHNIQUE = "insert-filter dominance (value-set of rcode, guard facts, clamp pattern), key-composition table, expire-before-lookup ordering, field-discipline census of rr->ttl readers with 'decrement exactly once', flush-on-change must-pass-through"
+TECHNIQUE = ("insert-filter dominance (value-set of rcode, guard facts, clamp pattern), key-composition table, expire-before-lookup ordering, field-discipline census of rr->ttl readers with 'decrement exactly once', flush-on-change must-pass-through"
+             ", sentinel typestate to the expiry store, dataflow + injectivity of every key component")
 LEVEL_TEXT = ("static: decides on every path (a) the insert filter (rcode in {NOERROR,NXDOMAIN}, not truncated, ttl capped by max_ttl, ttl==0 never cached, "
               "expiry = now+ttl), (b) what the key is composed of and that the map is case-insensitive, (c) expire-before-lookup and decrement-before-hand-out, "
               "(d) that no reader of a record TTL bypasses the cache age and none applies it twice, (e) that every server-set mutation and a successful "
